@@ -784,3 +784,350 @@ Proof.
   - intros [H3 [H1 H2]]. split; [intro Hpb; discriminate|].
     split; [exact H1 | split; [exact H2 | split; [exact H3 | reflexivity]]].
 Qed.
+
+(* ------------------------------------------------------------------ *)
+(* order reversal: subset-maximal models / minimal trap spaces         *)
+(* ------------------------------------------------------------------ *)
+
+Theorem min_models_are_min_traps : forall N pn ensure S, let n := nvars N in
+  pn_wf n pn -> pn_faithful N pn -> length ensure = n -> length S = n ->
+  ((is_model (model_of_space S) (trap_program PMin false pn ensure [] []) = true /\
+    forall S', length S' = n ->
+               is_model (model_of_space S') (trap_program PMin false pn ensure [] []) = true ->
+               (forall p, model_of_space S p = true -> model_of_space S' p = true) -> S' = S)
+   <-> In S (min_traps_b N ensure)).
+Proof.
+  intros N pn ensure S n Hwf Hf He HS. unfold n in *. clear n.
+  assert (Hnil : forall a : space, In a [] -> length a = nvars N) by (intros a []).
+  assert (Hmod : forall T : space, length T = nvars N ->
+            (is_model (model_of_space T) (trap_program PMin false pn ensure [] []) = true <->
+             trap_space N T /\ subspace T ensure = true)).
+  { intros T HT. rewrite (trap_program_min N pn ensure [] [] T Hwf Hf He Hnil HT).
+    simpl. tauto. }
+  rewrite (min_traps_b_spec N ensure S He). unfold min_trap. split.
+  - intros [HM Hmax]. apply (Hmod S HS) in HM. destruct HM as [Ht Hsub].
+    split; [split; [exact Ht|] | exact Hsub].
+    intros M' Ht' Hsub'.
+    assert (HM' : length M' = nvars N) by (apply trap_space_length; exact Ht').
+    apply (Hmax M' HM').
+    + apply (Hmod M' HM'). split; [exact Ht'|].
+      apply (subspace_trans M' S ensure Hsub' Hsub).
+    + apply (model_order M' S); [congruence | exact Hsub'].
+  - intros [[Ht Hmin] Hsub]. split.
+    + apply (Hmod S HS). split; assumption.
+    + intros S' HS' HM' Hincl. apply (Hmod S' HS') in HM'. destruct HM' as [Ht' _].
+      apply (Hmin S' Ht'). apply (model_order S' S); [congruence | exact Hincl].
+Qed.
+
+(* inside ensure, "different from ensure" means "fixes a variable that ensure leaves free" *)
+Lemma T_sub_all_free_eq : forall S E : space, subspace S E = true ->
+  (forall v, v < length S -> nth v E None = None -> nth v S None = None) -> S = E.
+Proof.
+  intros S E Hsub Hfree.
+  assert (Hlen : length S = length E) by (apply subspace_length; exact Hsub).
+  apply (subspace_antisym S E Hsub).
+  apply (subspace_nth E S (eq_sym Hlen)). intros i v Hi.
+  destruct (nth i E None) as [w|] eqn:EE.
+  - rewrite (proj1 (subspace_nth S E Hlen) Hsub i w EE) in Hi. exact Hi.
+  - rewrite (Hfree i (nth_some_lt S i v Hi) EE) in Hi. discriminate.
+Qed.
+
+Lemma T_strict_sub_fixes : forall S E : space, subspace S E = true ->
+  (S <> E <-> exists v, v < length S /\ nth v E None = None /\ nth v S None <> None).
+Proof.
+  intros S E Hsub. split.
+  - intros Hne.
+    set (f := fun v => match nth v E None, nth v S None with
+                       | None, Some _ => true
+                       | _, _ => false end).
+    destruct (existsb f (seq 0 (length S))) eqn:Ex.
+    + apply existsb_exists in Ex. destruct Ex as [v [Hv Hfv]]. apply in_seq in Hv.
+      exists v. split; [lia|]. unfold f in Hfv.
+      destruct (nth v E None); [discriminate|].
+      destruct (nth v S None); [|discriminate].
+      split; [reflexivity | discriminate].
+    + exfalso. apply Hne. apply (T_sub_all_free_eq S E Hsub).
+      intros v Hv HE. destruct (nth v S None) as [w|] eqn:ES; [exfalso | reflexivity].
+      assert (Ht : existsb f (seq 0 (length S)) = true).
+      { apply existsb_exists. exists v. split; [apply in_seq; lia|].
+        unfold f. rewrite HE, ES. reflexivity. }
+      rewrite Ex in Ht. discriminate.
+  - intros [v [_ [HE HSv]]] Heq. subst E. apply HSv. exact HE.
+Qed.
+
+Lemma T_fixes_all_filter : forall (S ensure : space) srcs,
+  fixes_all S (filter (fun v => match nth v ensure None with None => true | Some _ => false end)
+                      srcs) = true <->
+  forall v, In v srcs -> nth v ensure None = None -> nth v S None <> None.
+Proof.
+  intros S ensure srcs. unfold fixes_all. rewrite forallb_forall. split.
+  - intros H v Hv He HSv.
+    assert (Hin : In v (filter (fun v => match nth v ensure None with
+                                          | None => true | Some _ => false end) srcs)).
+    { apply filter_In. split; [exact Hv | rewrite He; reflexivity]. }
+    specialize (H v Hin). rewrite HSv in H. discriminate.
+  - intros H v Hv. apply filter_In in Hv. destruct Hv as [Hv He].
+    destruct (nth v ensure None) eqn:EE; [discriminate|].
+    specialize (H v Hv EE). destruct (nth v S None); [reflexivity|].
+    exfalso. apply H. reflexivity.
+Qed.
+
+Theorem max_models_are_max_traps : forall N pn ensure srcs S, let n := nvars N in
+  pn_wf n pn -> pn_faithful N pn -> length ensure = n -> length S = n ->
+  (exists v, v < n /\ nth v ensure None = None) -> (forall v, In v srcs -> v < n) ->
+  ((is_model (model_of_space S) (trap_program PMax false pn ensure [] srcs) = true /\
+    forall S', length S' = n ->
+               is_model (model_of_space S') (trap_program PMax false pn ensure [] srcs) = true ->
+               (forall p, model_of_space S' p = true -> model_of_space S p = true) -> S' = S)
+   <-> In S (max_traps_b N ensure
+               (filter (fun v => match nth v ensure None with None => true | Some _ => false end)
+                       srcs))).
+Proof.
+  intros N pn ensure srcs S n Hwf Hf He HS Hfree _. unfold n in *. clear n.
+  set (srcs' := filter (fun v => match nth v ensure None with
+                                 | None => true | Some _ => false end) srcs).
+  assert (Hnil : forall a : space, In a [] -> length a = nvars N) by (intros a []).
+  assert (Hmod : forall T : space, length T = nvars N ->
+            (is_model (model_of_space T) (trap_program PMax false pn ensure [] srcs) = true <->
+             trap_space N T /\ strict_subspace T ensure /\ fixes_all T srcs' = true)).
+  { intros T HT.
+    rewrite (trap_program_max_gen N pn ensure [] srcs T Hwf Hf He Hnil HT Hfree).
+    unfold strict_subspace, srcs'. rewrite T_fixes_all_filter. split.
+    - intros [H1 [H2 [_ [H4 H5]]]].
+      split; [exact H1 | split; [split; [exact H2|] | exact H5]].
+      apply (proj2 (T_strict_sub_fixes T ensure H2)). rewrite HT. exact H4.
+    - intros [H1 [[H2 H4] H5]].
+      split; [exact H1 | split; [exact H2 | split; [reflexivity | split; [| exact H5]]]].
+      rewrite <- HT. apply (proj1 (T_strict_sub_fixes T ensure H2) H4). }
+  rewrite (max_traps_b_spec_srcs N ensure srcs' S He). split.
+  - intros [HM Hmax]. apply (Hmod S HS) in HM. destruct HM as [Ht [Hstr Hfix]].
+    split; [exact Ht | split; [exact Hstr | split; [exact Hfix|]]].
+    intros M' Ht' Hstr' Hfix' Hsub'.
+    assert (HM' : length M' = nvars N) by (apply trap_space_length; exact Ht').
+    apply (Hmax M' HM').
+    + apply (Hmod M' HM'). split; [exact Ht' | split; [exact Hstr' | exact Hfix']].
+    + apply (model_order S M'); [congruence | exact Hsub'].
+  - intros [Ht [Hstr [Hfix Hmax]]]. split.
+    + apply (Hmod S HS). split; [exact Ht | split; [exact Hstr | exact Hfix]].
+    + intros S' HS' HM' Hincl. apply (Hmod S' HS') in HM'. destruct HM' as [Ht' [Hstr' Hfix']].
+      apply (Hmax S' Ht' Hstr' Hfix'). apply (model_order S S'); [congruence | exact Hincl].
+Qed.
+
+(* ------------------------------------------------------------------ *)
+(* fixed points of the reduced transition graph                        *)
+(* ------------------------------------------------------------------ *)
+
+Definition T_dp_choice (pn : pnet) : list rule :=
+  flat_map (fun v => [RChoice (v, true); RChoice (v, false); RConstraint [(v, true); (v, false)];
+                      RDisj [(v, true); (v, false)] []]) (p_vars pn).
+
+Definition T_dp_avoid (avoid : list space) : list rule :=
+  if existsb (fun a => match fixed_vars a with [] => true | _ => false end) avoid
+  then [RFalse]
+  else map (fun a => RConstraint (fixed_vars a)) avoid.
+
+Lemma T_deadlock_program_parts : forall pn ensure avoid M,
+  is_model M (deadlock_program pn ensure avoid) =
+  is_model M (T_dp_choice pn) &&
+  (is_model M (map (fun t => RConstraint (pre_places t)) (p_trans pn)) &&
+   (is_model M (map (fun vb => RFact vb) (fixed_vars ensure)) && is_model M (T_dp_avoid avoid))).
+Proof.
+  intros pn ensure avoid M. unfold deadlock_program, is_model. rewrite !forallb_app. reflexivity.
+Qed.
+
+Lemma T_dp_choice_model : forall pn M,
+  is_model M (T_dp_choice pn) = true <->
+  forall v, In v (p_vars pn) ->
+    M (v, true) && M (v, false) = false /\ M (v, true) || M (v, false) = true.
+Proof.
+  intros pn M. unfold T_dp_choice. rewrite T_is_model_flat_map. split.
+  - intros H v Hv. specialize (H v Hv). simpl in H.
+    rewrite !andb_true_r, orb_false_r in H. apply andb_true_iff in H. destruct H as [Hc Hr].
+    split; [apply negb_true_iff in Hc; exact Hc | exact Hr].
+  - intros H v Hv. destruct (H v Hv) as [Hc Hr]. simpl.
+    rewrite !andb_true_r, orb_false_r, Hc, Hr. reflexivity.
+Qed.
+
+Lemma T_dp_choice_state : forall pn s, is_model (model_of_state s) (T_dp_choice pn) = true.
+Proof.
+  intros pn s. apply T_dp_choice_model. intros v _. unfold model_of_state. simpl.
+  destruct (nth v s false); split; reflexivity.
+Qed.
+
+Lemma T_dp_trans_state : forall trs s,
+  is_model (model_of_state s) (map (fun t => RConstraint (pre_places t)) trs) = true <->
+  forall t, In t trs -> enabled s t = false.
+Proof.
+  intros trs s. unfold is_model. rewrite forallb_forall. split.
+  - intros H t Ht. apply negb_true_iff.
+    apply (H (RConstraint (pre_places t))). apply in_map_iff. exists t. split; [reflexivity | exact Ht].
+  - intros H r Hr. apply in_map_iff in Hr. destruct Hr as [t [Hr Ht]]. subst r.
+    simpl. apply negb_true_iff. apply (H t Ht).
+Qed.
+
+Lemma T_state_places_in_space : forall (s : state) (a : space), length s = length a ->
+  forallb (model_of_state s) (fixed_vars a) = in_space s a.
+Proof.
+  intros s a Hlen. apply eq_true_iff_eq. rewrite forallb_forall.
+  rewrite (in_space_nth s a Hlen). split.
+  - intros H i v Hi.
+    apply (T_marked_spec s i v). apply (H (i, v)). apply T_fixed_vars_In. exact Hi.
+  - intros H [i v] Hin. apply (T_marked_spec s i v). apply H. apply T_fixed_vars_In. exact Hin.
+Qed.
+
+Lemma T_dp_ensure_state : forall (s : state) (ensure : space), length s = length ensure ->
+  is_model (model_of_state s) (map (fun vb => RFact vb) (fixed_vars ensure)) = in_space s ensure.
+Proof.
+  intros s ensure Hlen. rewrite <- (T_state_places_in_space s ensure Hlen).
+  unfold is_model. induction (fixed_vars ensure) as [|p l IH]; simpl.
+  - reflexivity.
+  - rewrite IH. reflexivity.
+Qed.
+
+Lemma T_dp_avoid_state : forall (s : state) avoid,
+  (forall a, In a avoid -> length a = length s) ->
+  (is_model (model_of_state s) (T_dp_avoid avoid) = true <-> existsb (in_space s) avoid = false).
+Proof.
+  intros s avoid Hlen. unfold T_dp_avoid.
+  destruct (existsb (fun a => match fixed_vars a with [] => true | _ => false end) avoid) eqn:E.
+  - simpl. split; [discriminate|]. intros Hno. exfalso.
+    apply existsb_exists in E. destruct E as [a [Ha Hnil]].
+    assert (Hin : existsb (in_space s) avoid = true).
+    { apply existsb_exists. exists a. split; [exact Ha|].
+      rewrite <- (T_state_places_in_space s a (eq_sym (Hlen a Ha))).
+      destruct (fixed_vars a); [reflexivity | discriminate]. }
+    rewrite Hno in Hin. discriminate.
+  - clear E. unfold is_model. induction avoid as [|a avoid IH]; simpl.
+    + split; reflexivity.
+    + assert (Ha : length s = length a) by (symmetry; apply Hlen; left; reflexivity).
+      assert (Hr : forall a', In a' avoid -> length a' = length s).
+      { intros a' Ha'. apply Hlen. right. exact Ha'. }
+      rewrite (T_state_places_in_space s a Ha), andb_true_iff, orb_false_iff, (IH Hr),
+        negb_true_iff.
+      split; intro H; exact H.
+Qed.
+
+Lemma T_red_fixed_at_spec : forall N s (st : state) (R : space) k, length st = length R ->
+  (red_fixed_at N s k st R = true <->
+   forall i, i < length st ->
+     upd N (k + i) s = nth i st false \/ nth i R None = Some (nth i st false)).
+Proof.
+  intros N s. induction st as [|b st IH]; intros [|r R] k Hlen; simpl in *; try discriminate.
+  - split; [intros _ i Hi; lia | reflexivity].
+  - injection Hlen as Hlen. rewrite andb_true_iff, (IH R (Datatypes.S k) Hlen). split.
+    + intros [H0 Hr] [|i] Hi.
+      * rewrite Nat.add_0_r. apply orb_true_iff in H0. destruct H0 as [H0 | H0].
+        -- left. apply eqb_prop. exact H0.
+        -- right. destruct r as [v|]; [|discriminate].
+           apply eqb_prop in H0. subst v. reflexivity.
+      * rewrite Nat.add_succ_r. apply (Hr i). lia.
+    + intros H. split.
+      * apply orb_true_iff. destruct (H 0 (Nat.lt_0_succ _)) as [H0 | H0].
+        -- left. rewrite Nat.add_0_r in H0. rewrite H0. apply eqb_reflx.
+        -- right. simpl in H0. rewrite H0. apply eqb_reflx.
+      * intros i Hi. specialize (H (Datatypes.S i)). rewrite Nat.add_succ_r in H.
+        apply H. lia.
+Qed.
+
+Theorem deadlock_program_models : forall N pn R ensure avoid s, let n := nvars N in
+  pn_wf n pn -> pn_faithful N pn -> length R = n -> length ensure = n ->
+  (forall a, In a avoid -> length a = n) -> length s = n ->
+  (is_model (model_of_state s) (deadlock_program (reduce_pn pn R) ensure avoid) = true <->
+   In s (reduced_fixed_b N R ensure avoid)).
+Proof.
+  intros N pn R ensure avoid s n [Hvars Hwf] Hf HR He Ha Hs. unfold n in *. clear n.
+  assert (Hse : length s = length ensure) by congruence.
+  assert (Hsa : forall a, In a avoid -> length a = length s).
+  { intros a Hin. rewrite (Ha a Hin). symmetry. exact Hs. }
+  assert (HsR : length s = length R) by congruence.
+  rewrite T_deadlock_program_parts, T_dp_choice_state, (T_dp_ensure_state s ensure Hse).
+  simpl andb. rewrite !andb_true_iff, T_dp_trans_state, (T_dp_avoid_state s avoid Hsa).
+  unfold reduced_fixed_b. rewrite filter_In, states_of_spec, andb_true_iff, negb_true_iff.
+  rewrite (T_red_fixed_at_spec N s s R 0 HsR).
+  split.
+  - intros [Hdead [Hens Hav]]. split; [exact Hens | split; [| exact Hav]].
+    intros i Hi. simpl.
+    destruct (bool_dec (upd N i s) (nth i s false)) as [Heq | Hne]; [left; exact Heq | right].
+    apply T_bool_neq_negb in Hne.
+    assert (Hilt : i < nvars N) by (rewrite <- Hs; exact Hi).
+    assert (Hsi : nth i s false = negb (negb (nth i s false))) by (rewrite negb_involutive; reflexivity).
+    destruct (T_faithful_fwd N pn s i (negb (nth i s false)) Hf Hs Hilt Hne Hsi)
+      as [t [Ht [Htv [Htu Hen]]]].
+    destruct (nth i R None) as [b|] eqn:ER.
+    + destruct (bool_dec b (nth i s false)) as [Hb | Hb]; [subst b; reflexivity | exfalso].
+      apply T_bool_neq_negb in Hb.
+      assert (Hin : In t (p_trans (reduce_pn pn R))).
+      { simpl. apply filter_In. split; [exact Ht|]. rewrite Htv, ER, Htu, Hb.
+        rewrite negb_involutive. destruct (nth i s false); reflexivity. }
+      rewrite (Hdead t Hin) in Hen. discriminate.
+    + exfalso.
+      assert (Hin : In t (p_trans (reduce_pn pn R))).
+      { simpl. apply filter_In. split; [exact Ht|]. rewrite Htv, ER. reflexivity. }
+      rewrite (Hdead t Hin) in Hen. discriminate.
+  - intros [Hens [Hred Hav]]. split; [| split; [exact Hens | exact Hav]].
+    intros t Hin. simpl in Hin. apply filter_In in Hin. destruct Hin as [Ht Hkeep].
+    destruct (enabled s t) eqn:Hen; [exfalso | reflexivity].
+    destruct (Hwf t Ht) as [Hlt _].
+    destruct (T_faithful_bwd N pn s t Hf Hs Ht Hlt Hen) as [Hu Hx].
+    assert (Hi : t_var t < length s) by (rewrite Hs; exact Hlt).
+    destruct (Hred (t_var t) Hi) as [Hstable | Hret]; simpl in *.
+    + rewrite Hu, Hx in Hstable. apply (T_negb_fix _ Hstable).
+    + rewrite Hret, Hx, negb_involutive, eqb_reflx in Hkeep. discriminate.
+Qed.
+
+Theorem deadlock_program_models_are_states : forall pn ensure avoid M n,
+  p_vars pn = seq 0 n -> is_model M (deadlock_program pn ensure avoid) = true ->
+  forall v, v < n -> xorb (M (v, true)) (M (v, false)) = true.
+Proof.
+  intros pn ensure avoid M n Hvars HM v Hv.
+  rewrite T_deadlock_program_parts in HM. apply andb_true_iff in HM. destruct HM as [Hc _].
+  assert (Hin : In v (p_vars pn)) by (rewrite Hvars; apply in_seq; lia).
+  destruct (proj1 (T_dp_choice_model pn M) Hc v Hin) as [H1 H2].
+  destruct (M (v, true)), (M (v, false)); simpl in *; try reflexivity; discriminate.
+Qed.
+
+(* ------------------------------------------------------------------ *)
+(* why trap_program_max needs "all listed sources are variables":      *)
+(* one variable with the identity function, a listed source 1 >= n     *)
+(* ------------------------------------------------------------------ *)
+
+Lemma trap_program_max_guard_counterexample :
+  exists N pn ensure avoid srcs S,
+    pn_wf (nvars N) pn /\ pn_faithful N pn /\ length ensure = nvars N /\
+    (forall a, In a avoid -> length a = nvars N) /\ length S = nvars N /\
+    (exists v, v < nvars N /\ nth v ensure None = None) /\
+    ~ (is_model (model_of_space S) (trap_program PMax false pn ensure avoid srcs) = true <->
+       trap_space N S /\ subspace S ensure = true /\
+       forallb (fun a => negb (subspace S a)) avoid = true /\
+       (exists v, v < nvars N /\ nth v ensure None = None /\ nth v S None <> None) /\
+       (forall v, In v srcs -> v < nvars N -> nth v ensure None = None -> nth v S None <> None)).
+Proof.
+  exists [fun s : state => nth 0 s false], {| p_vars := [0]; p_trans := [] |},
+         [None], [], [1], [Some true].
+  split; [split; [reflexivity | intros t []]|].
+  split.
+  { intros s Hs Hin i up Hi Hfree. simpl in Hi. split.
+    - intros [t [[] _]].
+    - intros [Hu Hx]. exfalso. destruct i as [|i]; [|lia].
+      unfold upd in Hu. simpl in Hu. rewrite Hu in Hx. apply (T_negb_fix up Hx). }
+  split; [reflexivity|]. split; [intros a []|]. split; [reflexivity|].
+  split; [exists 0; split; [simpl; lia | reflexivity]|].
+  intros [_ H].
+  assert (HR : is_model (model_of_space [Some true])
+                 (trap_program PMax false {| p_vars := [0]; p_trans := [] |} [None] [] [1]) = true).
+  { apply H. split.
+    - apply trap_space_char; [reflexivity|].
+      intros i v Hi s Hwf Hin. destruct i as [|i].
+      + simpl in Hi. injection Hi as Hi. subst v. unfold upd. simpl.
+        destruct s as [|b s]; [discriminate|]. simpl in Hin.
+        apply andb_true_iff in Hin. destruct Hin as [Hb _]. apply eqb_prop in Hb. exact Hb.
+      + simpl in Hi. destruct i; discriminate.
+    - split; [reflexivity|]. split; [reflexivity|]. split.
+      + exists 0. split; [simpl; lia|]. split; [reflexivity | discriminate].
+      + intros v [Hv | []] Hlt. subst v. simpl in Hlt. lia. }
+  vm_compute in HR. discriminate.
+Qed.
+
+Print Assumptions trap_program_min.
+Print Assumptions max_models_are_max_traps.
+Print Assumptions deadlock_program_models.
